@@ -15,12 +15,12 @@ func init() {
 		})(c)
 	}
 	Registry["C05"] = func(c *Ctx) {
-		c.R.Rule = "two halves. Schedules: scenario = (graph of <=4 nodes, non-empty set of failing targets (<=1 quick, <=2 thorough), keep-going or fail-fast, num_workers); real Walker + pool under every choice sequence with <= d deviations; keep-going executes exactly selected minus (failed and their descendants), every failure is in the completion map, with fail-fast no command starts after the failing node's routine recorded the failure. Histories: breadth-first search over histories of <= n operations from {make //p:x or //p:y fail (exit code, missing declared output), remove the failure, edit, grog build, grog build --fail-fast} with the REAL binary on the chain workspace x->y->z: dependants of a failed target are not executed, independent targets are, grog exits non-zero naming the failed targets, and a failed target leaves no cache entry (the follow-up build attempts it and its dependants again). Non-trivial = at least one command ran / a build executed some but not all targets."
+		c.R.Rule = "two halves. Schedules: scenario = (graph of <=4 nodes, non-empty set of failing targets (<=1 quick, <=2 thorough), keep-going or fail-fast, num_workers); real Walker + pool under every choice sequence with <= d deviations; keep-going executes exactly selected minus (failed and their descendants), every failure is in the completion map, with fail-fast no command starts after the failing node's routine recorded the failure. Histories: breadth-first search over histories of <= n operations from {make //p:x or //p:y fail (exit code, missing declared output), remove the failure, grog taint, grog build, grog build --fail-fast} with the REAL binary on the chain workspace x->y->z: dependants of a failed target are not executed, independent targets are, grog exits non-zero naming the failed targets, and a failed target leaves no cache entry (the follow-up build attempts it and its dependants again). Non-trivial = at least one command ran / a build executed some but not all targets."
 		c.R.Assume("commands of the schedule half are stubs; a stub does not start under a cancelled context (like exec.CommandContext)", "failures of the history half are driven by marker files outside the declared inputs (an external condition), so the failing and the succeeding attempt have the same cache key")
-		walkCheckBudget("C05", []string{"C05:"}, 2, 3, 35, 400)(c)
-		chainCheck("C05", []string{"C05:"}, 4, 5, func(e *chainEngine, thorough bool) {
+		walkCheckBudget("C05", []string{"C05:"}, 2, 3, 25, 400)(c)
+		chainCheck("C05", []string{"C05:", "C04:build-hangs"}, 5, 6, func(e *chainEngine, thorough bool) {
 			e.universes = []chainState{{}, {Queue: true}}
-			e.ops = []chainOp{markOp("fail-y-exit"), markOp("fail-x-exit"), markOp("fail-y-noout"), opEditFirst, opBuild, opBuildFF}
+			e.ops = []chainOp{markOp("fail-y-exit"), markOp("fail-x-exit"), markOp("fail-y-noout"), opTaintY, opBuild, opBuildFF}
 			if thorough {
 				e.ops = append(e.ops, markOp("fail-y-timeout"), opEditY)
 			}
